@@ -9,7 +9,7 @@ from allmydata.util import base32, log, dictutil
 from allmydata.util.happinessutil import servers_of_happiness
 from allmydata.check_results import CheckAndRepairResults, CheckResults
 
-from allmydata.mutable.common import MODE_CHECK, MODE_WRITE, CorruptShareError
+from allmydata.mutable.common import MODE_CHECK, MODE_REPAIR, CorruptShareError
 from allmydata.mutable.servermap import ServerMap, ServermapUpdater
 from allmydata.mutable.retrieve import Retrieve # for verifying
 
@@ -251,7 +251,9 @@ class MutableChecker:
 
 
 class MutableCheckAndRepairer(MutableChecker):
-    SERVERMAP_MODE = MODE_WRITE # needed to get the privkey
+    # MODE_REPAIR asks every server, like the plain check's MODE_CHECK (so that a
+    # stray share of another version is not overlooked), and gets the privkey.
+    SERVERMAP_MODE = MODE_REPAIR
 
     def __init__(self, node, storage_broker, history, monitor):
         MutableChecker.__init__(self, node, storage_broker, history, monitor)
